@@ -132,7 +132,7 @@ class World:
 
 
 class Interp:
-    def __init__(self, routines=None, D=frozenset(), max_steps=20000):
+    def __init__(self, routines=None, D=frozenset(), max_steps=5000):
         self.routines = routines or {}
         self.D = D
         self.max_steps = max_steps
@@ -502,6 +502,8 @@ class Interp:
         r = self.ev(e[3])
         if not c.init:
             raise CUndefined("compound assignment to uninitialised variable")
+        if "compound-src-precast" in self.D and op not in ("<<=", ">>=") and is_int(r[0]):
+            r = (c.T, self.convert(r, c.T))  # the right operand is converted to the target's type first
         nv = self.arith(op[:-1], (c.T, c.v), r, compound=True)
         self.store(c, nv)
         return (c.T, c.v)
@@ -616,8 +618,9 @@ class Interp:
             x = wrap(va, R)
             cnt = vb
             if cnt < 0 or cnt >= promote(TA)[1]:
-                if "hybrid-eager" in self.D:
-                    # code C would not have executed (an unselected ?: arm) is executed by the IL:
+                if self.D:
+                    # under a deviation the reference models what the IL computes: code C would not have
+                    # executed (an unselected ?: arm) or a count that a deviating conversion produced;
                     # an over-wide RzIL shift yields zero / the fill bits
                     if op == "<<":
                         return (R, 0)
